@@ -121,9 +121,11 @@ def check_keys(ctx):
             if p_.exit == 'fall' and not any(isinstance(e.node, ast.Assign) and k(src(e.node.targets[0])) == 'propensity_params[k]' for e in p_.stmts()):
                 kept = False
     ok = ok and kept
-    sep_w = "propensity_annotation_string+=' '+k+'='+str(propensity_annotation_dict[k])" in txt
+    got_p, got_d, num_problem = written_annotations(fw)
+    sep_w = got_p == {'type': 'T', 'k': 'Pk', 's1': 'Ps1'}
     ctx.ob('R12.1-separators', 'propensity', ok and sep_w, ctx.loc('sbmlutil', fr),
-           "writer and reader agree on ' ' between pairs and '=' inside a pair", '')
+           "writer and reader agree on ' ' between pairs and '=' inside a pair (the writer's string for a sample dictionary, split the reader's way, gives the dictionary back)",
+           '' if sep_w else 'the reader would recover %r' % (got_p,))
     # delay
     fcr_txt = [k(util.stmt_key(s)) for s in ast.walk(fcr) if isinstance(s, ast.stmt)]
     dreq = set()
@@ -148,11 +150,10 @@ def check_keys(ctx):
     for key in sorted(dreq | {'type', 'reactants', 'products'}):
         ctx.ob('R12.1-delay-keys', key, key in handled, ctx.loc('sbmlutil', fr),
                "the delay annotation key '%s' written for a model is read back into the same field" % key, 'reader handles %s' % sorted(handled))
-    wtxt = txt
-    need = ["delay_annotation_string+=' '+str(param_key)+'='+str(param_value)", "delay_annotation_string+=' '+k+'='", "delay_annotation_string+=str(v)+','",
-            "delay_annotation_string+=' '+k+'='+str(val)"]
-    miss = [n for n in need if n not in wtxt]
-    ctx.ob('R12.1-separators', 'delay', not miss, ctx.loc('sbmlutil', fw), "delay annotation: ' ' between pairs, '=' inside, ',' inside lists", str(miss) if miss else '')
+    want_d = {'type': 'DT', 'reactants': 'R1,R1,R2', 'products': 'P1', 'delay': 'Dd', 'sigma': 'Ds'}
+    ctx.ob('R12.1-separators', 'delay', got_d == want_d, ctx.loc('sbmlutil', fw),
+           "delay annotation: ' ' between pairs, '=' inside, ',' inside lists, every list entry kept with its multiplicity, parameters flattened",
+           '' if got_d == want_d else 'for reactants [R1, R1, R2], products [P1], parameters {delay, sigma} the reader would recover %r' % (got_d,))
     # rule frequency
     far = c13.func(ctx, 'add_rule')
     freq = far.args.args[5].arg
@@ -179,8 +180,63 @@ def concat_operands(n):
     return [n]
 
 
+def annotation_blocks(fw):
+    blocks = []
+    for st in fw.body:
+        if isinstance(st, ast.If):
+            tgt = {src(t) for n in ast.walk(st) if isinstance(n, (ast.Assign, ast.AugAssign)) for t in (n.targets if isinstance(n, ast.Assign) else [n.target])}
+            if tgt & {'propensity_annotation_string', 'delay_annotation_string'} and 'ratestring' not in tgt:
+                blocks.append(st)
+    if len(blocks) != 2:
+        raise AnalysisError('add_reaction: the two annotation-writing blocks were not found (%d)' % len(blocks))
+    return blocks
+
+
+def written_annotations(fw):
+    """Evaluate the writer's annotation code on a sample reaction (values are named holes) and split the result the reader's way.
+    -> (propensity pairs, delay pairs, problem with numeric values or None)"""
+    from ..templates import StrExec, Hole
+    blocks = annotation_blocks(fw)
+
+    def run(numeric):
+        val = (lambda name, num: num) if numeric else (lambda name, num: Hole(name))
+        env = {'propensity_type': 'hillpositive',
+               'propensity_annotation_dict': {'type': Hole('T'), 'k': val('Pk', 2.5), 's1': Hole('Ps1')},
+               'delay_annotation_dict': {'type': Hole('DT'), 'reactants': [Hole('R1'), Hole('R1'), Hole('R2')], 'products': [Hole('P1')],
+                                         'parameters': {'delay': val('Dd', 3), 'sigma': val('Ds', 0.5)}}}
+        ex = StrExec(env, ('propensity_annotation_string', 'delay_annotation_string'))
+        ex.run(blocks)
+        return ex.env.get('propensity_annotation_string'), ex.env.get('delay_annotation_string')
+
+    def pairs(text, tag):
+        if not isinstance(text, str) or not (text.startswith('<%s>' % tag) and text.endswith('</%s>' % tag)):
+            return None
+        body = text[len(tag) + 2:-(len(tag) + 3)]
+        toks = body.split(' ')
+        out = {}
+        for t in toks:
+            if '=' in t:
+                out[t.split('=')[0]] = t.split('=')[1]
+            elif t != '':
+                out[t] = None
+        return out
+    sp_, sd_ = run(False)
+    num_problem = None
+    try:
+        a, b = run(True)
+        if not (isinstance(a, str) and isinstance(b, str)):
+            num_problem = 'with numeric values the annotation strings are not determined'
+    except AnalysisError as e:
+        num_problem = 'a numeric value is concatenated without str(): %s' % e
+    return pairs(sp_, 'PropensityType'), pairs(sd_, 'DelayType'), num_problem
+
+
 def check_str_wrapped(ctx, fw, far):
-    for f, tracked in ((fw, ('propensity_annotation_string', 'delay_annotation_string', 'annotation_string')), (far, ('rule_annotation_string',))):
+    _, _, num_problem = written_annotations(fw)
+    ctx.ob('R12.2-str-wrapped', fw.name, num_problem is None, ctx.loc('sbmlutil', fw),
+           'every model-supplied value concatenated into an annotation string is converted with str() (numbers are legal values): the '
+           'annotation code is evaluated on a sample reaction whose parameter values are numbers', num_problem or '')
+    for f, tracked in ((far, ('rule_annotation_string',)),):
         bad = []
         for n in ast.walk(f):
             val = None
@@ -312,6 +368,44 @@ def check_determinism(ctx):
            'the only non-deterministic call on the export path is the generated model id', '; '.join('%s calls %s at %s' % x for x in extra))
 
 
+def check_writer_values(ctx):
+    """the value a species / parameter has in the model is the number written into the document, on every path of the writer:
+    setInitialConcentration / setInitialAmount / setValue receive the argument itself (float(...) of it at most)"""
+    from .. import paths as _paths
+    for fname, arg, setters in (('add_species', 'initial_concentration', ('setInitialConcentration', 'setInitialAmount')),
+                                ('add_parameter', 'param_value', ('setValue',))):
+        f = c14.get_func(ctx, fname)
+        problems = []
+        ps = _paths.Enumerator().run(f.body, _paths.State())
+        ctx.paths += len(ps)
+        n_ret = 0
+        for p in ps:
+            if p.exit == 'raise':
+                continue
+            n_ret += 1
+            vals = []
+            cur = {arg: arg}
+            for e in p.stmts():
+                n = e.node
+                if isinstance(n, ast.Assign) and len(n.targets) == 1 and src(n.targets[0]) == arg:
+                    # the only re-binding allowed is the default for a missing value
+                    g = [k(util.canon_test(t.node)) for t in p.events if t.kind == 'test' and t.info]
+                    if not (util.const_num(n.value) == 0 and any('%sisNone' % arg in x for x in g)):
+                        problems.append('%s is rewritten: `%s`' % (arg, util.stmt_key(n)[:60]))
+                for c in [c for c in ast.walk(n) if isinstance(c, ast.Call) and isinstance(c.func, ast.Attribute) and c.func.attr in setters]:
+                    a0 = c.args[0] if c.args else None
+                    t = k(src(a0)) if a0 is not None else None
+                    if t not in (arg, 'float(%s)' % arg):
+                        problems.append('%s(%s) does not write the value itself [%s]' % (c.func.attr, t, _paths.describe(p, 3)))
+                    vals.append(c.func.attr)
+            if len(vals) != 1:
+                problems.append('a path writes the value %d times [%s]' % (len(vals), _paths.describe(p, 3)))
+        if n_ret == 0:
+            raise AnalysisError('%s: no returning path' % fname)
+        ctx.ob('R12.3-forwarding', '%s/value' % fname, not problems, ctx.loc('sbmlutil', f),
+               'the value handed to %s is written into the document unchanged, exactly once, on every path' % fname, '; '.join(sorted(set(problems))[:3]))
+
+
 def check_language(ctx):
     """R12.5: formula strings (general rates, rule right-hand sides) go through a libsbml parser on the way out and through
     formulaToL3String + bioscrape's own parser on the way back; the composition must keep bioscrape's meaning of every function
@@ -364,6 +458,7 @@ def check(ctx):
     check_forwarding(ctx)
     check_determinism(ctx)
     check_language(ctx)
+    check_writer_values(ctx)
     ctx.floor('R12.5-formula-language', 20)
     # "the same species and initial values, the same parameter values": the reader takes every species' initial value and every
     # parameter's value attribute, whatever else the document says about them (C13 R13.5) - re-emitted here
@@ -374,6 +469,7 @@ def check(ctx):
         if rule == 'R13.5-initial-values' and key == 'import_sbml_species':
             ctx.ob('R12.6-reader-values', key, ok, where, what, detail)
     c13.check_parameter_values(ctx, 'R12.6-reader-values')
+    c14.check_parameter_ids(ctx, 'R12.3-forwarding')
     ctx.floor('R12.6-reader-values', 2)
     ctx.floor('R12.1-propensity-keys', 6)
     ctx.floor('R12.1-delay-keys', 8)
